@@ -76,6 +76,28 @@ impl<E: FieldElement, H: ElementHasher<BaseField = E::BaseField>> VerifierChanne
         let lde_domain_size = air.lde_domain_size();
         let fri_options = air.options().to_fri_options();
 
+        // --- make sure the proof has the expected shape -----------------------------------------
+        if num_unique_queries == 0 {
+            return Err(VerifierError::ProofDeserializationError(
+                "number of unique queries must be greater than zero".to_string(),
+            ));
+        }
+        if trace_queries.len() != num_trace_segments {
+            return Err(VerifierError::ProofDeserializationError(format!(
+                "expected {} trace segment queries, but received {}",
+                num_trace_segments,
+                trace_queries.len()
+            )));
+        }
+        let num_fri_layers = fri_options.num_fri_layers(lde_domain_size);
+        if fri_proof.num_layers() != num_fri_layers {
+            return Err(VerifierError::ProofDeserializationError(format!(
+                "expected {} FRI layers, but received {}",
+                num_fri_layers,
+                fri_proof.num_layers()
+            )));
+        }
+
         // --- parse commitments ------------------------------------------------------------------
         let (trace_roots, constraint_root, fri_roots) = commitments
             .parse::<H>(num_trace_segments, fri_options.num_fri_layers(lde_domain_size))
